@@ -15,6 +15,7 @@ import (
 )
 
 type qgen struct {
+	pOdd  int // per-mille chance of an odd numeric duration
 	pExp  int // per-mille chance of experimental syntax (anchored/smoothed, duration expressions, fill)
 	r     *gen.Rand
 	pBad  int // per-mille chance of a type error at a typed hole
@@ -27,6 +28,7 @@ func newQGen(r *gen.Rand) *qgen {
 	g.pBad = gen.Pick(r, []int{0, 0, 0, 15, 40, 120})
 	g.pPar = gen.Pick(r, []int{0, 60, 150, 300})
 	g.pExp = gen.Pick(r, []int{0, 0, 0, 100, 300})
+	g.pOdd = gen.Pick(r, []int{0, 0, 50, 150, 500})
 	for n := range parser.Functions {
 		g.funcs = append(g.funcs, n)
 	}
@@ -102,7 +104,7 @@ func (g *qgen) scalar(d int) string {
 	}
 }
 
-var metrics = []string{"foo", "bar", "many", "h", "mixed", "cb", "b_bucket", "target_info", "foo_total", "dup", "nothing"}
+var metrics = []string{"foo", "bar", "many", "cbk_bucket", "nh", "lf", "cnh", "h", "mixed", "cb", "b_bucket", "target_info", "foo_total", "dup", "nothing"}
 
 func (g *qgen) matchers() string {
 	var ms []string
@@ -115,6 +117,9 @@ func (g *qgen) matchers() string {
 var durExprs = []string{"step()", "step()+1ms", "5m*2", "max_of(step(),1m)", "min_of(range(),2m)", "(1m+30s)", "1m-2m", "range()", "1m/0", "2^3", "10m%3m"}
 
 func (g *qgen) dur() string {
+	if g.pm(g.pOdd) {
+		return gen.Pick(g.r, oddDurs)
+	}
 	if g.pm(g.pExp) {
 		return gen.Pick(g.r, durExprs)
 	}
@@ -127,7 +132,9 @@ func (g *qgen) mods() string {
 		s += " " + gen.Pick(g.r, []string{"anchored", "smoothed"})
 	}
 	if g.r.Chance(1, 5) {
-		if g.pm(g.pExp) {
+		if g.pm(g.pOdd) {
+			s += " offset " + gen.Pick(g.r, []string{"0.0004", "0.0005", "0.001", "1e-9", "-0.0005", "-0.001", "1e9", "-1e9", "0.5"})
+		} else if g.pm(g.pExp) {
 			s += " offset " + gen.Pick(g.r, durExprs)
 		} else {
 			s += " offset " + gen.Pick(g.r, []string{"1m", "30s", "-1m", "10m", "0s", "1h"})
@@ -157,16 +164,31 @@ func (g *qgen) selector() string {
 
 var durs = []string{"30s", "1m", "2m", "5m", "15s", "1ms", "10m", "1h"}
 
+// odd numeric durations (seconds): below the engine's millisecond resolution, exactly at it, huge
+var oddDurs = []string{"0.0004", "0.0005", "0.001", "1e-9", "0.0015", "0.5", "1e9", "4e9", "300", "1e-3"}
+
+// (range, step) pairs for subqueries with odd steps; ranges are kept short where the step is 1ms
+var oddSub = [][2]string{{"1m", "0.0004"}, {"1m", "0.0005"}, {"5m", "1e-9"}, {"0.01", "0.001"}, {"2", "0.001"}, {"0.001", "0.001"},
+	{"0.0004", "0.0004"}, {"1m", "0.00099"}, {"30s", "0.5"}, {"5m", "1e9"}, {"1e3", "1e2"}, {"0.0005", ""}, {"1e-9", ""}, {"600", "0.0004"}, {"1m", "7.0005"}}
+
 func (g *qgen) matrix(d int) string {
 	if d > 0 && g.r.Chance(1, 3) {
 		step := ""
 		if g.r.Bool() {
 			step = gen.Pick(g.r, []string{"15s", "30s", "1m", "7s"})
 		}
+		if g.pm(g.pOdd) {
+			rs := gen.Pick(g.r, oddSub)
+			return g.hole(parser.ValueTypeVector, d-1) + "[" + rs[0] + ":" + rs[1] + "]" + g.mods()
+		}
 		if step != "" && g.pm(g.pExp) {
 			step = gen.Pick(g.r, durExprs)
 		}
-		return g.hole(parser.ValueTypeVector, d-1) + "[" + g.dur() + ":" + step + "]" + g.mods()
+		rg := g.dur()
+		if rg == "1e9" || rg == "4e9" { // millions of subquery steps: keep huge ranges for selectors
+			rg = "300"
+		}
+		return g.hole(parser.ValueTypeVector, d-1) + "[" + rg + ":" + step + "]" + g.mods()
 	}
 	return g.selector() + "[" + g.dur() + "]" + g.mods()
 }
@@ -314,6 +336,73 @@ func (g *qgen) callOf(f *parser.Function, d int) string {
 	return f.Name + "(" + strings.Join(args, ", ") + ")"
 }
 
+// histInput: an expression yielding classic buckets and/or native histograms whose series appear
+// and disappear over the query range.
+func (g *qgen) histInput() string {
+	m := gen.Pick(g.r, []string{"cbk_bucket", "cbk_bucket", "cbk_bucket", "nh", "nh", "cnh", "b_bucket", "h", "mixed", "cb"})
+	sel := m
+	if g.r.Chance(1, 3) {
+		sel += "{" + gen.Pick(g.r, []string{`job="a"`, `job=~"a|c"`, `instance="i0"`, `le!="1.0"`, `le=~"1|10|.Inf"`, `job!="b"`}) + "}"
+	}
+	rng := gen.Pick(g.r, []string{"1m", "2m", "5m", "30s", "10m"})
+	switch g.r.Intn(12) {
+	case 0, 1, 2, 3:
+		return sel
+	case 4:
+		return "rate(" + sel + "[" + rng + "])"
+	case 5:
+		return gen.Pick(g.r, []string{"increase", "delta", "irate", "last_over_time", "sum_over_time", "avg_over_time"}) + "(" + sel + "[" + rng + "])"
+	case 6:
+		return "sum by (le, job) (" + sel + ")"
+	case 7:
+		return "sum by (le) (rate(" + sel + "[" + rng + "]))"
+	case 8:
+		return "sum without (instance) (" + sel + ")"
+	case 9:
+		return sel + " offset " + gen.Pick(g.r, []string{"1m", "5m", "-2m", "30s"})
+	case 10:
+		return "(" + sel + " or " + gen.Pick(g.r, []string{"nh", "cbk_bucket", "cnh"}) + ")"
+	default:
+		return sel + " " + gen.Pick(g.r, []string{"* 2", "> 3", "+ 0", "unless cbk_bucket{le=\"+Inf\"}", "and on (job) lf"})
+	}
+}
+
+func (g *qgen) q() string {
+	return gen.Pick(g.r, []string{"0.5", "0.9", "0", "1", "0.99", "-1", "2", "NaN", "scalar(lf{job=\"a\",instance=\"i0\"}) / 100", "Inf"})
+}
+
+// histQuery: one of the histogram functions over a histInput, possibly nested once.
+func (g *qgen) histQuery() string {
+	in := g.histInput()
+	var s string
+	switch g.r.Intn(10) {
+	case 0, 1:
+		s = "histogram_quantile(" + g.q() + ", " + in + ")"
+	case 2, 3:
+		s = "histogram_fraction(" + gen.Pick(g.r, []string{"0", "-Inf", "0.5", "1", "NaN"}) + ", " + gen.Pick(g.r, []string{"1", "10", "+Inf", "0.2", "-1"}) + ", " + in + ")"
+	case 4, 5:
+		n := 1 + g.r.Intn(3)
+		qs := make([]string, n)
+		for i := range qs {
+			qs[i] = g.q()
+		}
+		s = "histogram_quantiles(" + in + ", " + gen.Pick(g.r, []string{`"q"`, `"quantile"`, `"le"`, `"job"`}) + ", " + strings.Join(qs, ", ") + ")"
+	default:
+		s = gen.Pick(g.r, []string{"histogram_count", "histogram_sum", "histogram_avg", "histogram_stddev", "histogram_stdvar"}) + "(" + in + ")"
+	}
+	switch g.r.Intn(8) {
+	case 0:
+		return "sum by (job) (" + s + ")"
+	case 1:
+		return s + " + on (job, instance) group_left lf"
+	case 2:
+		return "max_over_time((" + s + ")[3m:30s])"
+	case 3:
+		return "-" + s
+	}
+	return s
+}
+
 // top generates a whole query.
 func (g *qgen) top() string {
 	d := 1 + g.r.Intn(4)
@@ -327,6 +416,8 @@ func (g *qgen) top() string {
 	case 6, 7, 8, 9: // every function gets its turn
 		f := parser.Functions[gen.Pick(g.r, g.funcs)]
 		return g.callOf(f, d)
+	case 11, 12: // histogram functions over series that appear and disappear
+		return g.histQuery()
 	case 10: // aggregation whose parameter is a nested expression (unwrapped but not preprocessed)
 		p := "scalar(" + g.hole(parser.ValueTypeVector, d) + ")"
 		return fmt.Sprintf("%s(%s, %s)", gen.Pick(g.r, aggParam), p, g.hole(parser.ValueTypeVector, 1))
